@@ -271,7 +271,8 @@ def _check_file(case):
                                            ("getFrames(startTime=%r)" % t0, lambda: q.getFrames(startTime=t0), t0, None),
                                            ("getFrames(None, %r)" % t0, lambda: q.getFrames(None, t0), None, t0),
                                            ("getFrames(endTime=%r)" % t0, lambda: q.getFrames(endTime=t0), None, t0),
-                                           ("getSamples(%r, %r)" % (t0, n / rate), lambda: audio.convertToBytes(q.getSamples(t0, n / rate), width), t0, None)):
+                                           ("getSamples(%r, %r)" % (t0, n / rate), lambda: audio.convertToBytes(q.getSamples(t0, n / rate), width), t0, None),
+                                           ("getFrames() [after other reads through this reader]", lambda: q.getFrames(), None, None)):
                 cnt += 1
                 st, fr, _ = call(thunk)
                 if st == "exc":
